@@ -159,6 +159,9 @@ class FrameItem(EFLRItem):
 
         # differences are computed on floats: for (unsigned or narrow) integer types they could wrap around
         diff = np.diff(index_data.astype(np.float64))
+        if np.isnan(diff).any():
+            return None, None  # not-a-number among the index values: neither uniformly spaced nor monotonic
+
         diff_unique = np.unique(diff)
 
         if (diff_unique == 0).all():
